@@ -4,4 +4,12 @@ cd "$(dirname "$0")"
 export PATH=/opt/veriftools/go1.26.8/bin:$PATH
 export GOTOOLCHAIN=local GOPROXY=off GOSUMDB=off GOFLAGS= CGO_ENABLED=0
 [ -x bin/govc ] || ./setup.sh >/dev/null
-exec ./bin/govc check "$1" --tier "${2:-${VERIF_TIER:-quick}}"
+tier="${2:-${VERIF_TIER:-quick}}"
+./bin/govc check "$1" --tier "$tier"
+rc=$?
+if [ "$tier" = thorough ] && [ $rc -eq 0 ]; then
+  # thorough: the same obligations with three times the solver budget (the proof is the same proof), plus the
+  # must-fail corpus of this property as an audit that its contracts still bind (never changes the verdict)
+  python3 selftest/run.py --prop "$1" -j 8 --audit-evidence "evidence/$1.json" | grep "^SELFTEST\|^MISSED\|^FALSE-ALARM"
+fi
+exit $rc
